@@ -27,4 +27,8 @@ VARIANTS = [
     # F20 / F26: the pre-repair forms
     V("containment-lexical-only(F20)", "src/soundevent/io/aoef/recording.py", "            if \"..\" in Path(os.path.normpath(path)).parts:\n                raise ValueError(\n                    f\"Recording path {obj.path} is outside the audio \"\n                    f\"directory {self.audio_dir}.\"\n                )\n", "", "R18.4"),
     V("document-in-locale-encoding(F26)", "src/soundevent/io/aoef/__init__.py", "        path.read_text(encoding=\"utf-8\")", "        path.read_text()", "R18.5"),
+    # mutation audit (DESIGN 8.17): which format selects the saver / loader
+    V("given-format-ignored-on-save", "src/soundevent/io/saver.py", "    if format is None:\n        format = infer_format(path)", "    if format is not None:\n        format = infer_format(path)", "R18.1"),
+    V("format-always-inferred-on-load", "src/soundevent/io/loader.py", "    if format is None:\n        format = infer_format(path)", "    format = infer_format(path)", "R18.1"),
+    V("N-format-conditional-expression", "src/soundevent/io/loader.py", "    if format is None:\n        format = infer_format(path)", "    format = infer_format(path) if format is None else format", None),
 ]
